@@ -341,7 +341,8 @@ class MonteCarlo(SingleDriver, Generic[MoveType, CriteriaType]):
                 yield forced_moves_mapping[index]
             else:
                 move_probabilities = np.array(
-                    [self.moves[name].probability for name in available_moves]
+                    [self.moves[name].probability for name in available_moves],
+                    dtype=float,
                 )
                 move_probabilities /= np.sum(move_probabilities)
 
